@@ -47,13 +47,17 @@ package cluster
 
 // update: every iteration merges exactly update u into exactly the entry of u's shard and leaves all
 // other entries alone (step clauses); entry invariant and monotonicity are loop invariants.
+// (ghost nupd: how many times the view was handed a batch of updates)
+//@ ghostfield any.nupd Int
 //@ func (*shardView).update
 //@   requires v != nil && v.shards != nil
+//@   ghostset v.nupd = old(v.nupd) + 1
+//@   ensures v.nupd == old(v.nupd) + 1
 //@   requires [ok] forall id uint64 :: entryOK(entryOf(v, id)) && entryOf(v, id).ShardID == id
 //@   ensures  [C19.ok]   forall id uint64 :: entryOK(entryOf(v, id)) && entryOf(v, id).ShardID == id
 //@   ensures  [C19.mono] forall id uint64 :: entryOf(v, id).Term >= old(entryOf(v, id).Term) && entryOf(v, id).ConfigChangeIndex >= old(entryOf(v, id).ConfigChangeIndex)
 //@   ensures  [C19.none] len(updates) == 0 ==> forall id uint64 :: entryOf(v, id) == old(entryOf(v, id))
-//@   modifies elems(v.shards)
+//@   modifies elems(v.shards), v.nupd
 //@   loop 0 invariant v.shards == old(v.shards) && -1 <= rangeindex && rangeindex < len(updates) || (len(updates) == 0 && rangeindex == -1)
 //@   loop 0 invariant forall id uint64 :: entryOK(entryOf(v, id)) && entryOf(v, id).ShardID == id
 //@   loop 0 invariant forall id uint64 :: entryOf(v, id).Term >= old(entryOf(v, id).Term) && entryOf(v, id).ConfigChangeIndex >= old(entryOf(v, id).ConfigChangeIndex)
@@ -130,12 +134,12 @@ package cluster
 //@   requires [ok] forall id uint64 :: entryOK(entryOf(c.shardView, id)) && entryOf(c.shardView, id).ShardID == id
 //@   before (*shardView).update assert [C19.gossip.fold] v == c.shardView
 //@   before json.Marshal<*cluster.clusterState> assert [C19.gossip.view] asType(v, *cluster.clusterState) != nil && isCopyOf(asType(v, *cluster.clusterState).ShardView, c.shardView)
-//@   modifies elems(c.shardView.shards)
+//@   modifies elems(c.shardView.shards), c.shardView.nupd
 //@ func (*delegate).MergeRemoteState
 //@   requires c != nil && c.shardView != nil && c.shardView.shards != nil
 //@   requires [ok] forall id uint64 :: entryOK(entryOf(c.shardView, id)) && entryOf(c.shardView, id).ShardID == id
 //@   before (*shardView).update assert [C19.gossip.merge] v == c.shardView && sameSlice(updates, remote.ShardView)
-//@   modifies elems(c.shardView.shards)
+//@   modifies elems(c.shardView.shards), c.shardView.nupd
 
 // ShardInfo answers from the merged view
 //@ func (*Cluster).ShardInfo
@@ -143,3 +147,17 @@ package cluster
 //@   ensures [C19.read.cluster] has(c.shardView.shards, id) ==> result == c.shardView.shards[id]
 //@   ensures !has(c.shardView.shards, id) ==> result == registry.ShardView{}
 //@   modifies nothing
+
+// ---------------------------------------------------------------- raft events reach the view (C19)
+
+// Notify (called for every leader / membership event of the local node host): the local raft report is
+// folded into the view the node answers from on EVERY call - whether or not a gossip refresh is
+// already pending (the refresh signal is best effort, the view update is not).
+//@ func (*Cluster).Notify#view
+//@   functype Cluster.infoF infoContract
+//@   maypanic
+//@   requires c != nil && c.shardView != nil && c.shardView.shards != nil && c.infoF != nil
+//@   requires [ok] forall id uint64 :: entryOK(entryOf(c.shardView, id)) && entryOf(c.shardView, id).ShardID == id
+//@   before (*shardView).update assert [C19.notify.fold] v == c.shardView
+//@   ensures [C19.notify.always] c.shardView.nupd == old(c.shardView.nupd) + 1
+//@   modifies elems(c.shardView.shards), c.shardView.nupd, family(CH_len)
